@@ -734,3 +734,113 @@ def run_resetsame(prog, ctx=None):
                    "" if not bad else "for property '%s' the reset path restores %s while the value path writes %s: resetting leaves the named property unchanged and changes another one" % (
                        names[0], ", ".join(bad), ", ".join(sorted(p_set))))
     return res
+
+
+
+def run_convfailok(prog, ctx=None):
+    """CONVFAILOK: a layout setter that keeps the answer of `src->convert(..)` in a local does not report success (`return
+    <constant >= 0>`) while that local holds a failure code.  Sign analysis of the local (subsets of {negative, zero,
+    positive}, refined at the tests `!len`, `len < 0`, `len > 0` .. and at the short-circuit operands of a condition, reset
+    by every other assignment): no constant success return is reached with `negative` still possible.  `if (len) return 0;`
+    behind the zero test of a conversion answers success for a source the conversion refused and stores nothing; `return
+    len < 0 ? len : 0` and `if (len < 0) return len;` are the accepted forms."""
+    res = Result("CONVFAILOK")
+    ALL = frozenset("NZP")
+    for kind in KINDS:
+        f = prog.func("mpt_%s_set" % kind)
+        if f is None:
+            raise Broken("anchor missing: mpt_%s_set" % kind)
+
+        def is_conv(r):
+            r = strip(r, all_casts=True)
+            if r.get("k") == "call" and r.get("callee") is not None:
+                ce = strip(r["callee"], all_casts=True)
+                return ce.get("k") == "mem" and ce.get("f") == "convert"
+            return False
+        conv_locals = {}
+        for b, i, n in f.walk_all():
+            if n.get("k") == "bin" and n.get("op") == "=" and is_conv(n["b"]):
+                l = strip(n["a"], lvalue_to_rvalue=False)
+                if l.get("k") == "ref" and "id" in l["d"]:
+                    conv_locals[l["d"]["id"]] = l["d"].get("n")
+        for vid, vname in sorted(conv_locals.items()):
+            def transfer(st, e):
+                for n in walk_own(e):
+                    if n.get("k") == "bin" and n.get("op", "").endswith("=") and n["op"] not in ("==", "!=", "<=", ">="):
+                        l = strip(n["a"], lvalue_to_rvalue=False)
+                        if l.get("k") == "ref" and l["d"].get("id") == vid:
+                            st = ALL if (n["op"] == "=" and is_conv(n["b"])) else None
+                return st
+
+            def refine(st, c, truth):
+                """state on the edge where condition c has the given truth value"""
+                if st is None:
+                    return None
+                c = strip(c, all_casts=True)
+                if c.get("k") == "un" and c.get("op") == "!":
+                    return refine(st, c["e"], not truth)
+                if c.get("k") == "bin" and c.get("op") == "=":
+                    l = strip(c["a"], lvalue_to_rvalue=False)
+                    if l.get("k") == "ref" and l["d"].get("id") == vid:
+                        return st & (frozenset("NP") if truth else frozenset("Z"))
+                    return st
+                if c.get("k") == "ref" and c["d"].get("id") == vid:
+                    return st & (frozenset("NP") if truth else frozenset("Z"))
+                if c.get("k") == "bin" and c.get("op") in ("<", "<=", ">", ">=", "==", "!="):
+                    a, b2 = strip(c["a"], all_casts=True), c["b"]
+                    op = c["op"]
+                    if a.get("k") == "bin" and a.get("op") == "=":
+                        a = strip(a["a"], lvalue_to_rvalue=False)
+                    if a.get("k") == "ref" and a["d"].get("id") == vid and cval(b2) == 0:
+                        yes = {"<": "N", "<=": "NZ", ">": "P", ">=": "ZP", "==": "Z", "!=": "NP"}[op]
+                        keep = frozenset(yes) if truth else ALL - frozenset(yes)
+                        return st & keep
+                return st
+            IN = {bid: None for bid in f.blocks}
+            seen = set()
+            work = [(f.entry, None)]
+            bad = {}
+            nret = 0
+            OUT = {}
+            while work:
+                bid, st_in = work.pop()
+                cur = IN[bid]
+                if bid in seen:
+                    new = cur if st_in is None else (st_in if cur is None else cur | st_in)
+                    if new == cur:
+                        continue
+                    IN[bid] = new
+                else:
+                    seen.add(bid)
+                    IN[bid] = st_in if cur is None else (cur if st_in is None else cur | st_in)
+                st = IN[bid]
+                blk = f.blocks[bid]
+                for i, e in enumerate(blk.el):
+                    st = transfer(st, e)
+                    if e.get("k") == "ret" and e.get("e") is not None:
+                        v = cval(e["e"])
+                        if v is not None and v >= 0 and st is not None and "N" in st:
+                            bad[e.get("l")] = e
+                t = blk.term
+                if t and t.get("cond") is not None and len(blk.succ) == 2:
+                    c = strip(t["cond"], all_casts=True)
+                    if t.get("cls") == "BinaryOperator":
+                        if c.get("k") == "bin" and c.get("op") in ("&&", "||"):
+                            c = c["a"]
+                    else:
+                        while isinstance(c, dict) and strip(c, all_casts=True).get("k") == "bin" and strip(c, all_casts=True).get("op") in ("&&", "||"):
+                            c = strip(c, all_casts=True)["b"]
+                    for k2, s2 in enumerate(blk.succ):
+                        if s2 is not None:
+                            work.append((s2, refine(st, c, k2 == 0)))
+                else:
+                    for s2 in blk.succ:
+                        if s2 is not None:
+                            work.append((s2, st))
+            rets = [e for b, i, e in f.elements() if e.get("k") == "ret" and e.get("e") is not None and cval(e["e"]) is not None and cval(e["e"]) >= 0]
+            for k2, e in enumerate(sorted(rets, key=lambda e: (e.get("l") or 0))):
+                isbad = e.get("l") in bad
+                res.ob("mpt_%s_set:%s:success return %d" % (kind, vname, k2), not isbad, f, e.get("l") or f.line,
+                       "" if not isbad else "`return %d` at line %s is reached while %s, the answer of a conversion, may be negative: a source the conversion refused is answered with success and nothing is stored" % (
+                           cval(e["e"]), e.get("l"), vname))
+    return res
